@@ -240,6 +240,10 @@ def c_perm(ctx, case):
     for v in base.values():
         if not np.isfinite(v).all():
             ctx.discard("non-finite base model (empty cluster)")
+    if case["kind"] == "gmm":
+        spread2 = float(np.var(case["X"], axis=0).max()) + 1e-300
+        if (base["variances"] < 1e-8 * spread2).any():
+            ctx.discard("collapsed component (responsibilities amplify rounding by 1/variance)")
     perm = np.asarray(case["perm"])
     moved = bool((perm != np.arange(n)).any())
     if "y" in case:
